@@ -11,6 +11,11 @@ def register(db):
     register_map_binding(db)
     register_operation_messages(db)
     register_envelope_class(db)
+    register_parts_attributes(db)
+    register_operation_namespace(db)
+    register_port_type_message(db)
+    register_lookup_and_port(db)
+    register_lazy_namespace(db)
     P = ["C17"]
     assume_method(db, "Transport", "post", returns="u:Bytes", pure=True, raises=["ConnectionError"] if False else [])
     assume_method(db, "XmlParserObj", "from_bytes", returns="u:Any", pure=True, raises=["ParserError"])
@@ -302,4 +307,174 @@ def register_envelope_class(db):
                            f"implies(called('{MP}') == 1, call_arg('{MP}', 3) is ext and call_arg('{MP}', 4) is call_result('{BIC}').ns_map "
                            f"and call_arg('{MP}', 2) == port_type_message.message)")])],
         properties=["C17"],
+    ))
+
+
+def register_parts_attributes(db):
+    """DefinitionsMapper.build_parts_attributes: the envelope field generated for a message part carries the name and
+    namespace the WSDL prescribes - a part given by `element=` is named after that element and lives in the namespace
+    the element's prefix is bound to *on the part*; a part given by `type=` keeps its own name, refers to that type, and
+    its namespace is decided later (`##lazy`); a part with neither is skipped."""
+    DM = "xsdata.codegen.mappers.definitions:DefinitionsMapper"
+    collab.field(db, "Part", "element", "str|None")
+    collab.field(db, "Part", "type", "str|None")
+    collab.field(db, "Part", "ns_map", "u:NsMap")
+    assume_method(db, "NsMap", "get", returns="str|None", pure=True)
+    db.add(Contract(f"{DM}.build_attr", variant="call-view", trusted=True, call_default=True, params={}, returns="u:Attr", raises={},
+                    note="call-site view: one attr built from the arguments (recorded on the ghost trace)"))
+
+    def the_class(mk, base):
+        from pyvc.values import ClassRef
+        return ClassRef("xsdata.codegen.mappers.definitions", "DefinitionsMapper")
+
+    BA = "DefinitionsMapper.build_attr"
+    XS = "http://www.w3.org/2001/XMLSchema"
+    NS_E = "uf('NsMap.get', 'str|None', part.ns_map, ref_prefix(part.element))"
+    NS_T = "uf('NsMap.get', 'str|None', part.ns_map, ref_prefix(part.type))"
+    db.add(Contract(
+        f"{DM}.build_parts_attributes", variant="per-part",
+        params={"cls": the_class, "parts": "seq[u:Part]", "ns_map": "opaque:PyDict"},
+        ensures=[], raises={"ValueError": True},
+        loops=[Loop(invariants=[], header="parts",
+                    step=[("element-part-is-named-after-its-element",
+                           f"implies(part.element is not None and len(part.element) > 0, called('{BA}') == 1 and "
+                           f"call_arg('{BA}', 1) == ref_local(part.element))"),
+                          ("element-part-lives-in-the-namespace-its-prefix-is-bound-to-on-the-part",
+                           f"implies(part.element is not None and len(part.element) > 0 and (part.type is None or len(part.type) == 0) and {NS_E} != '{XS}', "
+                           f"call_arg('{BA}', 5) == {NS_E})"),
+                          ("element-part-native-iff-schema-namespace",
+                           f"implies(part.element is not None and len(part.element) > 0, call_arg('{BA}', 3) == ({NS_E} == '{XS}'))"),
+                          ("typed-part-keeps-its-name-and-gets-a-lazy-namespace",
+                           f"implies((part.element is None or len(part.element) == 0) and part.type is not None and len(part.type) > 0, "
+                           f"called('{BA}') == 1 and call_arg('{BA}', 1) == part.name and call_arg('{BA}', 5) == '##lazy' and "
+                           f"call_arg('{BA}', 3) == ({NS_T} == '{XS}'))"),
+                          ("untyped-part-is-skipped",
+                           f"implies((part.element is None or len(part.element) == 0) and (part.type is None or len(part.type) == 0), called('{BA}') == 0)"),
+                          ("the-part-prefixes-reach-the-class-map", f"implies(called('{BA}') == 1, called('PyDict.update') == 1 and call_arg('PyDict.update', 0) is part.ns_map)")])],
+        properties=["C17"],
+        note="ValueError: build_qname of an empty reference (no namespace and no local name)",
+    ))
+
+
+def register_operation_namespace(db):
+    """DefinitionsMapper.operation_namespace: the envelope classes of an operation live in the SOAP 1.1 envelope namespace
+    exactly when the binding's transport is SOAP over HTTP."""
+    DM = "xsdata.codegen.mappers.definitions:DefinitionsMapper"
+
+    def the_class(mk, base):
+        from pyvc.values import ClassRef
+        return ClassRef("xsdata.codegen.mappers.definitions", "DefinitionsMapper")
+
+    HTTP = "http://schemas.xmlsoap.org/soap/http"
+    db.add(Contract(
+        f"{DM}.operation_namespace", params={"cls": the_class, "config": "dict[str,str]"},
+        ensures=[("soap-envelope-namespace-iff-soap-http-transport",
+                  f"ite('transport' in config and config['transport'] == '{HTTP}', result == 'http://schemas.xmlsoap.org/soap/envelope/', result is None)")],
+        raises={}, returns="str|None", properties=["C17"],
+    ))
+
+
+def register_port_type_message(db):
+    """DefinitionsMapper.map_port_type_message (rpc bodies): one field that wraps the message - named after the operation
+    (input) or after the message itself (output, no operation name), typed by the message's qualified name in the
+    namespace its prefix is bound to on the portType message, placed in the namespace the soap:body names."""
+    DM = "xsdata.codegen.mappers.definitions:DefinitionsMapper"
+    collab.field(db, "PortTypeMessage", "ns_map", "u:NsMap")
+
+    def the_class(mk, base):
+        from pyvc.values import ClassRef
+        return ClassRef("xsdata.codegen.mappers.definitions", "DefinitionsMapper")
+
+    BA = "DefinitionsMapper.build_attr"
+    NS = "uf('NsMap.get', 'str|None', message.ns_map, ref_prefix(message.message))"
+    db.add(Contract(
+        f"{DM}.map_port_type_message",
+        params={"cls": the_class, "operation": "str|None", "message": "opaque:PortTypeMessage", "namespace": "str|None"},
+        requires=["len(message.message) > 0", "len(ref_local(message.message)) > 0"],
+        ensures=[("one-wrapper-field", f"called('{BA}') == 1 and len(result) == 1 and result[0] is call_result('{BA}')"),
+                 ("named-after-the-operation-or-the-message",
+                  f"call_arg('{BA}', 1) == ite(operation is None, ref_local(message.message), operation)"),
+                 ("typed-by-the-message-in-the-namespace-of-its-prefix",
+                  f"call_arg('{BA}', 2) == ite({NS} is not None and len({NS}) > 0, clark_build({NS}, ref_local(message.message)), ref_local(message.message))"),
+                 ("placed-in-the-namespace-of-the-soap-body", f"call_arg('{BA}', 5) == namespace and call_arg('{BA}', 3) == False")],
+        raises={}, properties=["C17"],
+    ))
+
+
+def register_lookup_and_port(db):
+    """find_or_die (message / binding / portType lookup by name) and DefinitionsMapper.map_port (which binding and
+    portType a service port is mapped with, and where its settings come from)."""
+    WSDL = "xsdata.models.wsdl"
+    DM = "xsdata.codegen.mappers.definitions:DefinitionsMapper"
+    collab.field(db, "WsdlItem", "name", "str")
+    NO_EARLIER = "forall('int', lambda j: implies(0 <= j and j < {n}, items[j].name != name))"
+    db.add(Contract(
+        f"{WSDL}:find_or_die", params={"items": "seq[u:WsdlItem]", "name": "str", "type_name": "str"}, ghost={"i": "int"},
+        ensures=[("the-result-has-that-name", "result.name == name"),
+                 ("the-first-item-of-that-name-is-returned",
+                  "implies(0 <= i and i < len(items) and items[i].name == name and " + NO_EARLIER.format(n="i") + ", result is items[i])")],
+        raises={"CodegenError": NO_EARLIER.format(n="len(items)")},
+        loops=[Loop(invariants=[NO_EARLIER.format(n="_i")], header="items")],
+        properties=["C17"],
+        note="a dangling reference (no item of that name) is the generator's own error, never a wrong item",
+    ))
+    from pyvc import builtins_calls as bc
+    bc.FUNCS["itertools.chain"] = bc._traced("itertools.chain")  # the call and its arguments go to the ghost trace
+    assume_method(db, "Definitions", "find_binding", returns="u:Binding", pure=True, raises=["CodegenError"])
+    assume_method(db, "Definitions", "find_port_type", returns="u:PortType", pure=True, raises=["CodegenError"])
+    collab.field(db, "ServicePort", "binding", "str")
+    collab.field(db, "ServicePort", "extended_elements", "seq[u:AnyElement]")
+    collab.field(db, "Binding", "type", "str")
+    collab.field(db, "Binding", "extended_elements", "seq[u:AnyElement]")
+    db.add(Contract(f"{DM}.map_binding", variant="call-view", trusted=True, call_default=True, params={}, returns="seq[u:Class]",
+                    raises={"CodegenError": True, "AssertionError": True},
+                    note="call-site view (the function itself is verified: settings per operation)"))
+
+    def the_class(mk, base):
+        from pyvc.values import ClassRef
+        return ClassRef("xsdata.codegen.mappers.definitions", "DefinitionsMapper")
+
+    MB, AT = "DefinitionsMapper.map_binding", "DefinitionsMapper.attributes"
+    db.add(Contract(
+        f"{DM}.map_port", params={"cls": the_class, "definitions": "opaque:Definitions", "port": "opaque:ServicePort"},
+        requires=["len(port.binding) > 0"],
+        ensures=[("the-binding-is-the-one-the-port-names",
+                  "call_arg('Definitions.find_binding', 0) == ref_local(port.binding)"),
+                 ("the-port-type-is-the-one-that-binding-names",
+                  "call_arg('Definitions.find_port_type', 0) == ref_local(uf('Definitions.find_binding', 'u:Binding', definitions, ref_local(port.binding)).type)"),
+                 ("settings-come-from-the-binding-then-the-port",
+                  "called('itertools.chain') == 1 and call_arg('itertools.chain', 0) == uf('Definitions.find_binding', 'u:Binding', definitions, ref_local(port.binding)).extended_elements "
+                  "and call_arg('itertools.chain', 1) == port.extended_elements"),
+                 ("mapped-with-that-binding-port-type-and-settings",
+                  f"called('{MB}') == 1 and call_arg('{MB}', 1) is definitions and call_arg('{MB}', 4) is call_result('{AT}')")],
+        raises={"CodegenError": True, "AssertionError": True}, properties=["C17"],
+    ))
+
+
+def register_lazy_namespace(db):
+    """ProcessAttributeTypes.detect_lazy_namespace: the namespace of a message part declared by `type=` is decided when
+    the referenced class is known - it becomes that class's namespace; when the class has none, the field is
+    unqualified ('' inside a qualified envelope class, None otherwise); a field that is not marked lazy is untouched."""
+    H = "xsdata.codegen.handlers.process_attributes_types:ProcessAttributeTypes"
+
+    def handler_class(mk, base):
+        from pyvc.values import ClassRef
+        return ClassRef("xsdata.codegen.handlers.process_attributes_types", "ProcessAttributeTypes")
+
+    def klass(mk, base):
+        return mk.obj("xsdata.codegen.models:Class", {"name": "str", "namespace": "str|None"})
+
+    def attr(mk, base):
+        return mk.obj("xsdata.codegen.models:Attr", {"name": "str", "namespace": "str|None"})
+
+    db.add(Contract(
+        f"{H}.detect_lazy_namespace", params={"cls": handler_class, "source": klass, "target": klass, "attr": attr},
+        ensures=[("a-lazy-field-takes-the-namespace-of-the-referenced-class",
+                  "implies(old(attr.namespace) == '##lazy' and source.namespace is not None and len(source.namespace) > 0, attr.namespace == source.namespace)"),
+                 ("unqualified-when-the-referenced-class-has-no-namespace",
+                  "implies(old(attr.namespace) == '##lazy' and (source.namespace is None or len(source.namespace) == 0), "
+                  "ite(target.namespace is not None and len(target.namespace) > 0, attr.namespace == '', attr.namespace is None))"),
+                 ("other-fields-untouched", "implies(old(attr.namespace) != '##lazy', attr.namespace == old(attr.namespace))"),
+                 ("never-left-lazy", "attr.namespace != '##lazy' or source.namespace == '##lazy'")],
+        raises={}, modifies=["attr.namespace"], properties=["C17"],
     ))
